@@ -479,6 +479,16 @@ func (node *Node) hashWithCount(version int64) []byte {
 	return node.hash
 }
 
+// resetUnsavedHashes forgets the hashes memoised for the nodes that have not been saved yet.
+func (node *Node) resetUnsavedHashes() {
+	if node == nil || node.nodeKey != nil {
+		return
+	}
+	node.hash = nil
+	node.leftNode.resetUnsavedHashes()
+	node.rightNode.resetUnsavedHashes()
+}
+
 // validate validates the node contents
 func (node *Node) validate() error {
 	if node == nil {
